@@ -18,7 +18,8 @@ CONSTANTS
   PickSet,       \* outcomes of allocate's random choice that are explored
   AdvanceSteps,  \* clock increments
   MaxTime, MaxMsgs, MaxUsage, MaxDepth,  \* state constraint
-  WithStop, WithCrash, WithCrashIn, WithFault, WithTime
+  WithStop, WithCrash, WithCrashIn, WithFault, WithTime,
+  WithSendFail   \* an add may meet a subscriber whose connection is closing (the send to it fails)
 
 VARIABLES db, udb, now,            \* observable state
           act, out, err, tr,       \* observation of the last step
@@ -52,7 +53,10 @@ WithId(M) == {[m EXCEPT !.id = i] : m \in M, i \in MsgIds}
 CmdEvents(S, c, m, kind, ats) ==
   {[Ev0 EXCEPT !.k = kind, !.c = c, !.m = m, !.at = k,
                !.gid = IF NeedsGen(S, c, m) THEN NextGen(S) ELSE ABSENT, !.pick = p]
-   : p \in (IF NeedsPick(S, c, m) THEN AllocChoices(S.db, S.conn[c].app) \cap PickSet ELSE {ABSENT}),
+   : p \in (IF NeedsPick(S, c, m) THEN AllocChoices(S.db, S.conn[c].app) \cap PickSet
+            ELSE IF WithSendFail /\ kind = "Cmd" /\ m.type = "add"
+                 THEN {ABSENT} \cup {x \in Conns \ {c} : S.conn[x].up /\ S.conn[x].listening}
+                 ELSE {ABSENT}),
      k \in ats}
 
 Events(S) ==
